@@ -242,7 +242,7 @@ func runC15(c *eng.Ctx) {
 			}, eng.StrConst(""), eng.NE)
 			n := 0
 			for _, r := range eng.Returns(fn) {
-				if len(r.Results) != 1 || !eng.NilConst(r.Results[0]) {
+				if len(eng.RetVals(r)) != 1 || !eng.NilConst(eng.RetVals(r)[0]) {
 					continue
 				}
 				n++
@@ -282,9 +282,9 @@ func runC15(c *eng.Ctx) {
 			// result returned unchanged
 			okRet := false
 			for _, r := range eng.Returns(fn) {
-				if len(r.Results) == 2 {
-					e0, ok0 := retSource(r.Results[0]).(*ssa.Extract)
-					e1, ok1 := retSource(r.Results[1]).(*ssa.Extract)
+				if len(eng.RetVals(r)) == 2 {
+					e0, ok0 := retSource(eng.RetVals(r)[0]).(*ssa.Extract)
+					e1, ok1 := retSource(eng.RetVals(r)[1]).(*ssa.Extract)
 					okRet = ok0 && ok1 && e0.Tuple == call && e1.Tuple == call && e0.Index == 0 && e1.Index == 1
 				}
 			}
